@@ -629,18 +629,18 @@ Proof.
     + eapply join_node_good; [exact Hr'|]. unfold shared_release. cbn [Z.eqb].
       apply (shared_good p true pr m); [exact Hg|reflexivity|intros x; norm; reflexivity|intros s; reflexivity].
   - (* split_tuple *) destruct (IHt Hw (0 :: p)) as (pr & Hr & Hs & Hg). cbn [lrun]. rewrite Hr.
-    set (mk := fun i => let c := consumer p false pr i in
+    set (mk := fun i => let c := consumer p true pr i in
                 {| n_con := n_con c; n_pre := n_pre c; n_c := tuple_c i (n_c c); n_res := n_res c; n_post := n_post c |}).
     assert (Hne : [mk 0; mk 1] <> []) by (intros HH; inversion HH).
-    pose proof (join_node_some p 1 false ([New (p, KShared)] ++ n_con pr) (shared_release p (2 - 2)) [mk 0; mk 1]
+    pose proof (join_node_some p 1 false ([New (p, KShared); RefInc p] ++ n_con pr) (shared_release p (1 + 2 - 1 - 2)) [mk 0; mk 1]
                 (or_intror Hne)) as (r & Hr' & Hcr).
     exists r. split; [exact Hr'|split].
     + rewrite Hcr. cbn [map mk n_c consumer]. rewrite split_tuple_seq.
       pose proof (pipeline_one_signal (SplitTuple t)) as P. cbn [sigs] in *. rewrite Hs, consumer_events_single.
       destruct (n_c pr) as [vs|e|]; [apply split_tuple_val|reflexivity|reflexivity].
     + eapply join_node_good; [exact Hr'|]. unfold shared_release. cbn [Z.sub Z.eqb Z.pos_sub].
-      change (flat_map evs [mk 0; mk 1]) with (flat_map evs (map (consumer p false pr) (seq 0 2))).
-      apply (shared_good p false pr 1); [exact Hg|reflexivity|intros x; norm; reflexivity|intros s; reflexivity].
+      change (flat_map evs [mk 0; mk 1]) with (flat_map evs (map (consumer p true pr) (seq 0 2))).
+      apply (shared_good p true pr 1); [exact Hg|reflexivity|intros x; norm; reflexivity|intros s; reflexivity].
   - (* ensure_started *) destruct (IHt Hw (0 :: p)) as (pr & Hr & Hs & Hg). cbn [lrun sigs]. rewrite Hr.
     eexists; split; [reflexivity|split; [cbn [n_c]; now rewrite Hs|]].
     unfold good. eapply (goodl_equiv _ (evs pr ++ shared_local p true ++ [New (p, KState); RefInc p; Del (p, KState); RefDec p])).
